@@ -462,8 +462,11 @@ func tablesFor(text string, doc any) (numtab, rxtab string) {
 	sort.Strings(np)
 	subj := map[string]bool{}
 	collectStrings(doc, subj)
+	for p := range pats { // a string literal can also stand on the left of MATCHES
+		subj[p] = true
+	}
 	var rp []string
-	if len(pats)*len(subj) <= 400 {
+	if len(pats)*len(subj) <= 1200 {
 		for p := range pats {
 			re, err := regexp.Compile(p)
 			for s := range subj {
@@ -696,11 +699,77 @@ func genMalformed(rng *rand.Rand, valid func() string) string {
 	}
 }
 
+// genLoose writes a text from the parser's grammar with no regard for types: any term may stand on
+// either side of any operator (`1 IN 2`, `'red' IN tags`, `(a) CONTAINS 3`, `LENGTH(1) == x EXISTS`).
+// Most of these build; what they do at evaluation time is the "wrong types simply reject" clause.
+func genLoose(rng *rand.Rand, depth int) string {
+	term := func() string { return looseTerm(rng, depth) }
+	if depth > 0 {
+		switch rng.Intn(10) {
+		case 0:
+			return genLoose(rng, depth-1) + " AND " + genLoose(rng, depth-1)
+		case 1:
+			return genLoose(rng, depth-1) + " OR " + genLoose(rng, depth-1)
+		case 2:
+			return "NOT " + genLoose(rng, depth-1)
+		}
+	}
+	ops := []string{"==", "!=", "<", "<=", ">", ">=", "IN", "NOT IN", "CONTAINS", "STARTS_WITH", "ENDS_WITH", "MATCHES", "EXISTS", "DOES NOT EXIST", ""}
+	op := ops[rng.Intn(len(ops))]
+	if rng.Intn(3) == 0 {
+		op = []string{"IN", "NOT IN"}[rng.Intn(2)]
+	}
+	switch op {
+	case "":
+		return term()
+	case "EXISTS", "DOES NOT EXIST":
+		t := term() + " " + op
+		if rng.Intn(3) == 0 {
+			t += " " + ops[rng.Intn(12)] + " " + term()
+		}
+		return t
+	}
+	return term() + " " + op + " " + term()
+}
+
+func looseTerm(rng *rand.Rand, depth int) string {
+	names := []string{"a", "b", "s", "name", "flag", "nul", "tags", "nums", "o", "o.x", "o.z.w", "items", "absent", "tags[0]", "nums[1]", "items[0].price", "tags.length", "o.missing", "absent.deep", "tags[7]"}
+	k := rng.Intn(13)
+	if depth <= 0 && k >= 9 {
+		k = rng.Intn(9)
+	}
+	switch k {
+	case 0, 1, 2:
+		return names[rng.Intn(len(names))]
+	case 3:
+		return numLits[rng.Intn(len(numLits))]
+	case 4:
+		return "'" + []string{"red", "abc", "x", "", "[", "a.*"}[rng.Intn(6)] + "'"
+	case 5:
+		return []string{"true", "false", "null"}[rng.Intn(3)]
+	case 6:
+		return ":" + []string{"p", "a", "tags"}[rng.Intn(3)]
+	case 7, 8:
+		n := rng.Intn(4)
+		items := make([]string, n)
+		for i := range items {
+			items[i] = []string{"1", "2.5", "'red'", "'x'", "true", "null"}[rng.Intn(6)]
+		}
+		return "[" + strings.Join(items, ", ") + "]"
+	case 9, 10:
+		return "(" + genLoose(rng, depth-1) + ")"
+	case 11:
+		return []string{"LENGTH", "EXISTS", "DOES_NOT_EXIST", "length", "f"}[rng.Intn(5)] + "(" + looseTerm(rng, depth-1) + ")"
+	default:
+		return names[rng.Intn(len(names))] + "[" + looseTerm(rng, depth-1) + "]"
+	}
+}
+
 var malformedDocs = []string{`{"a":1,"s":"abc","tags":["x"],"o":{"x":1}}`, `{}`, `[]`, `[1,2]`, `"str"`, `3`, `null`, `true`, ``, `{`, `{"a":`, "\xff\xfe", `{"a":{"b":[{"c":null}]}}`}
 
 func queryC14(o *Opts) {
 	res := NewResult("C14", "query", o.Seed, o.Tier)
-	res.Rule = "malformed filter texts (prefixes, deletions and byte mutations of valid filters, keyword fragments, random bytes, deep nesting) x metadata byte strings (valid, non-object, invalid JSON); " +
+	res.Rule = "malformed filter texts (prefixes, deletions and byte mutations of valid filters, keyword fragments, random bytes, deep nesting) and grammar-directed type-blind texts (any term on either side of any operator) x metadata byte strings (valid, non-object, invalid JSON); " +
 		"implementation outcome (filter/error/panic/hang) compared with the Lean model; non-trivial = text that is not a valid filter; distinct = distinct text"
 	n := 40000
 	if o.Tier == "thorough" {
@@ -728,7 +797,7 @@ func queryC14(o *Opts) {
 		replay := map[string]any{"text_hex": hx(text), "text": text, "metadata": string(md), "impl": real, "model": model}
 		if real == "panic" || real == "hang" {
 			sig := "C14/" + real
-			if real == "panic" && strings.Contains(text, "DOES NOT") {
+			if real == "panic" && strings.HasSuffix(strings.TrimSpace(text), "DOES NOT") {
 				sig = "C14/panic/does-not-at-end"
 			}
 			res.Violate("impl-failure", sig, fmt.Sprintf("BuildFilter(%q) / applying it to %q: %s", text, md, real), replay)
@@ -750,8 +819,12 @@ func queryC14(o *Opts) {
 	}
 	for i := 0; i < n; i++ {
 		text := genMalformed(rng, valid)
+		if i%3 == 2 {
+			text = genLoose(rng, 1+rng.Intn(3))
+			res.Hit("stream:loose")
+		}
 		md := []byte(malformedDocs[rng.Intn(len(malformedDocs))])
-		if rng.Intn(4) == 0 {
+		if rng.Intn(4) == 0 || (i%3 == 2 && rng.Intn(2) == 0) {
 			md, _ = json.Marshal(genDoc(rng))
 		}
 		run(text, md)
